@@ -6,11 +6,11 @@ import vlib
 SEM = os.path.join(vlib.VERIF, "spec", "sem")
 
 
-def run_scenarios(res, scen_list, monitor, spec_dir=SEM, tag="", timeout=1500, sub="seq", par=16, procs=1):
+def run_scenarios(res, scen_list, monitor, spec_dir=SEM, tag="", timeout=1500, sub="seq", par=16, procs=1, race=False):
     """scen_list: list of scenario dicts without 'tr'. Returns number of traces validated. Adds violations to res."""
     if not scen_list:
         return 0
-    vh = vlib.build_vh()
+    vh = vlib.build_vh(race=race)
     base = os.path.join(vlib.scratch(), "s%s_%d" % (tag, len(os.listdir(vlib.scratch()))))
     sp, tp = base + ".scen", base + ".trace"
     scen = {}
@@ -45,6 +45,14 @@ def run_scenarios(res, scen_list, monitor, spec_dir=SEM, tag="", timeout=1500, s
                     f.write(open("%s.%d" % (tp, i)).read())
     else:
         rc, out = vlib.sh([vh, sub, "-scen", sp, "-out", tp, "-par", str(par)], timeout)
+    races = vlib.race_reports(out)
+    for tops, eng, text in races:
+        if eng:     # the Go race detector saw two unsynchronised accesses, at least one of them in engine code, during a replayed schedule
+            res.violation("data_race_reported_by_the_go_race_detector between %s" % " and ".join(tops[:2]), {"family": tag, "race_report": text})
+        else:
+            res.notes.append("race detector report concerning only the harness: %s" % (tops[:2],))
+    if rc == 66 and races:
+        rc = 0          # exit code of a race-enabled binary that reported races; the trace is still validated
     if rc != 0:
         raise vlib.Inconclusive("driver failed:\n" + out[-3000:])
     inc = [l for l in out.splitlines() if l.startswith("INCONCLUSIVE")]
